@@ -1,8 +1,375 @@
-import FalconModel.Backing
-namespace Falcon.C16
-open Falcon Falcon.Backing
+/-
+  Property C16 — backing memory is a permissioned byte map under overlapping writes.
 
-theorem placeholder_new_abs (e : Endian) : abs (Memory.new e).sections = ByteMap.empty := by
+  Model: `FalconModel/Backing.lean` (mirror of lib/memory/backing.rs, panics and `Err` explicit).
+  Specification: `ByteMap = Nat → Option (UInt8 × Perm)`, `override` (a region write), `overrideBytes`
+  (a 4-byte store that keeps permissions), `readBytes`/`assemble`/`specGet` (multi-byte reads).
+  `abs m.sections` is the byte map a section list stands for; `Inv` is the representation invariant
+  (keys ascending, sections pairwise disjoint, none empty, every section ends below 2^64).
+
+  Side condition carried by the theorems: a region satisfies `address + length < 2^64`.  A region that
+  contains the byte 2^64-1 makes the u64 end-address arithmetic of falcon overflow (known finding
+  `C16/topwin/top/*`, see known_findings.d/C16.json); lengths are unbounded otherwise, histories are arbitrary.
+-/
+import FalconProofs.Backing.SetMemory
+import FalconProofs.Backing.Get
+import FalconProofs.Backing.Word
+
+namespace Falcon.C16
+open Falcon Falcon.Backing Falcon.Backing.Memory
+
+/-! ## `set_memory` -/
+
+theorem override_nil (f : ByteMap) (a : Nat) (p : Perm) : override f a [] p = f := by
+  funext x; simp [override]; omega
+
+/-- **set_memory_spec.** On a well-formed memory, for every region below 2^64 (empty ones included),
+    `set_memory` answers (no panic), keeps the endianness and the invariant (sorted, pairwise disjoint,
+    no empty section), and the byte map becomes the old one overridden on exactly `[a, a + |d|)` with the
+    new bytes and permissions. -/
+theorem set_memory_spec (m : Memory) (a : Nat) (d : List UInt8) (p : Perm) (hinv : Inv m.sections)
+    (hE : a + d.length < U64) :
+    ∃ m', m.setMemory a d p = .ok m' ∧ m'.endian = m.endian ∧ Inv m'.sections ∧
+      abs m'.sections = override (abs m.sections) a d p := by
+  cases d with
+  | nil => exact ⟨m, setMemory_empty m a p, rfl, hinv, (override_nil _ a p).symm⟩
+  | cons b bs => exact setMemory_sections m a (b :: bs) p hinv (by simp) hE
+
+/-- **the stored sections never overlap** (and are kept in ascending order, none empty) -/
+theorem sections_disjoint {m : SMap} (hinv : Inv m) {e1 e2 : Entry} (h1 : e1 ∈ m) (h2 : e2 ∈ m) (hne : e1 ≠ e2) :
+    e1.1 + e1.2.data.length ≤ e2.1 ∨ e2.1 + e2.2.data.length ≤ e1.1 := by
+  have hp := hinv.pairwise
+  induction m with
+  | nil => simp at h1
+  | cons hd t ih =>
+    rw [List.pairwise_cons] at hp
+    have hinv' : Inv t := ⟨hp.2, fun e he => hinv.nonempty e (by simp [he]), fun e he => hinv.bounded e (by simp [he])⟩
+    rcases List.mem_cons.mp h1 with h1 | h1 <;> rcases List.mem_cons.mp h2 with h2 | h2
+    · exact absurd (h1.trans h2.symm) hne
+    · have := hp.1 e2 h2; rw [← h1] at this; exact Or.inl this.2
+    · have := hp.1 e1 h1; rw [← h2] at this; exact Or.inr this.2
+    · exact ih hinv' h1 h2 hp.2
+
+/-! ## single-byte reads -/
+
+/-- **get8_spec / permissions_spec.** Every address reads the byte and the permissions the byte map holds
+    for it, `none` when unmapped; never a panic. -/
+theorem get8_spec (m : Memory) (hinv : Inv m.sections) (x : Nat) :
+    m.get8 x = .ok ((abs m.sections x).map Prod.fst) := get8_eq hinv x
+
+theorem permissions_spec (m : Memory) (hinv : Inv m.sections) (x : Nat) :
+    m.permissions x = .ok ((abs m.sections x).map Prod.snd) := permissions_eq hinv x
+
+/-! ## arbitrary-width reads -/
+
+/-- `readBytes` answers `none` exactly when some byte of the range is unmapped (or not an address) -/
+theorem readBytes_eq_none_iff (f : ByteMap) (a n : Nat) :
+    readBytes f a n = none ↔ ∃ i, i < n ∧ (U64 ≤ a + i ∨ f (a + i) = none) := by
+  induction n generalizing a with
+  | zero => simp [readBytes]
+  | succ n ih =>
+    simp only [readBytes]
+    constructor
+    · intro h
+      by_cases ha : a < U64
+      · simp only [ha, ↓reduceIte] at h
+        cases hf : f a with
+        | none => exact ⟨0, by omega, Or.inr (by simpa using hf)⟩
+        | some v =>
+          obtain ⟨b, p⟩ := v
+          cases hr : readBytes f (a + 1) n with
+          | none =>
+            obtain ⟨i, hi, hc⟩ := (ih (a + 1)).mp hr
+            refine ⟨i + 1, by omega, ?_⟩
+            have e : a + (i + 1) = a + 1 + i := by omega
+            rw [e]; exact hc
+          | some bs => rw [hf, hr] at h; simp at h
+      · exact ⟨0, by omega, Or.inl (by omega)⟩
+    · rintro ⟨i, hi, hc⟩
+      by_cases ha : a < U64
+      · simp only [ha, ↓reduceIte]
+        cases hf : f a with
+        | none => rfl
+        | some v =>
+          obtain ⟨b, p⟩ := v
+          cases i with
+          | zero =>
+            rcases hc with hc | hc
+            · simp only [Nat.add_zero] at hc; omega
+            · simp only [Nat.add_zero] at hc; rw [hf] at hc; cases hc
+          | succ i =>
+            have e : a + (i + 1) = a + 1 + i := by omega
+            rw [e] at hc
+            have := (ih (a + 1)).mpr ⟨i, by omega, hc⟩
+            rw [this]
+      · simp [ha]
+
+/-- **get_spec.** For every address and width, `get` answers what the specification reads off the byte map:
+    the bytes `a … a + bits/8 - 1` assembled in the memory's endianness as a `bits`-wide constant, and `none` —
+    never a panic — when `bits` is 0 or no multiple of 8, or when any byte of the range is unmapped. -/
+theorem get_spec (m : Memory) (hinv : Inv m.sections) (a bits : Nat) (ha : a < U64) (hbits : bits < U64) :
+    m.get a bits = .ok (specGet m.endian (abs m.sections) a bits) := get_eq m hinv a bits ha hbits
+
+theorem get_never_panics (m : Memory) (hinv : Inv m.sections) (a bits : Nat) (ha : a < U64) (hbits : bits < U64) :
+    m.get a bits ≠ .panic := by rw [get_spec m hinv a bits ha hbits]; exact fun h => by cases h
+
+/-- `get` answers `none` iff the width is unusable or some byte of the range is unmapped -/
+theorem get_none_iff (m : Memory) (hinv : Inv m.sections) (a bits : Nat) (ha : a < U64) (hbits : bits < U64) :
+    m.get a bits = .ok none ↔
+      (bits % 8 ≠ 0 ∨ bits = 0) ∨ ∃ i, i < bits / 8 ∧ (U64 ≤ a + i ∨ abs m.sections (a + i) = none) := by
+  rw [get_spec m hinv a bits ha hbits]
+  unfold specGet
+  by_cases h : bits % 8 ≠ 0 ∨ bits = 0
+  · simp [h]
+  · simp only [h, ↓reduceIte, false_or, Res.ok.injEq, Option.map_eq_none_iff]
+    exact readBytes_eq_none_iff _ _ _
+
+/-! ## 32-bit accesses within one section -/
+
+/-- **get32_spec.** When `[a, a+4)` lies within one stored section, `get32` answers the four bytes of the
+    byte map assembled in the memory's endianness. -/
+theorem get32_spec (m : Memory) (hinv : Inv m.sections) (a : Nat) (h : within32 m.sections a = true) :
+    m.get32 a = .ok (specGet32 m.endian (abs m.sections) a) ∧
+      (specGet32 m.endian (abs m.sections) a).isSome := by
+  simp only [within32, List.any_eq_true, Bool.and_eq_true, decide_eq_true_eq] at h
+  obtain ⟨e, he, h1, h2⟩ := h
+  exact get32_within hinv he h1 h2
+
+/-- **set32_spec.** When `[a, a+4)` lies within one stored section, `set32` answers `Ok`, and the byte map
+    changes on exactly those four addresses, to the bytes of the value in the memory's endianness, with the
+    permissions unchanged; the invariant is kept. -/
+theorem set32_spec (m : Memory) (hinv : Inv m.sections) (a v : Nat) (h : within32 m.sections a = true) :
+    ∃ m', m.set32 a v = .ok m' ∧ m'.endian = m.endian ∧ Inv m'.sections ∧
+      abs m'.sections = overrideBytes (abs m.sections) a (bytes32 m.endian v) := by
+  simp only [within32, List.any_eq_true, Bool.and_eq_true, decide_eq_true_eq] at h
+  obtain ⟨e, he, h1, h2⟩ := h
+  exact set32_within hinv he v h1 h2
+
+/-- a 32-bit store is read back by `get32`: the value modulo 2^32 -/
+theorem assemble_bytes32 (e : Endian) (v : Nat) : assemble e (bytes32 e v) = v % 2 ^ 32 := by
+  have key : ∀ w : BitVec 32,
+      (((w >>> 24).toNat % 256 * 256 + (w >>> 16).toNat % 256) * 256 + (w >>> 8).toNat % 256) * 256 + w.toNat % 256
+        = w.toNat := by
+    intro w
+    have h24 : (w >>> 24).toNat = w.toNat / 16777216 := by simp [BitVec.toNat_ushiftRight, Nat.shiftRight_eq_div_pow]
+    have h16 : (w >>> 16).toNat = w.toNat / 65536 := by simp [BitVec.toNat_ushiftRight, Nat.shiftRight_eq_div_pow]
+    have h8 : (w >>> 8).toNat = w.toNat / 256 := by simp [BitVec.toNat_ushiftRight, Nat.shiftRight_eq_div_pow]
+    have hw : w.toNat < 4294967296 := w.isLt
+    rw [h24, h16, h8]
+    generalize w.toNat = n at *
+    clear h24 h16 h8
+    omega
+  have hmod : ∀ k, (v >>> k) % 256 = ((BitVec.ofNat 32 v) >>> k).toNat % 256 ∨ 24 < k := by
+    intro k
+    by_cases hk : 24 < k
+    · exact Or.inr hk
+    · left
+      simp only [BitVec.toNat_ushiftRight, BitVec.toNat_ofNat, Nat.shiftRight_eq_div_pow]
+      have h2 : (2 : Nat) ^ 32 = 2 ^ k * 2 ^ (32 - k) := by rw [← Nat.pow_add]; congr 1; omega
+      have h3 : (2 : Nat) ^ (32 - k) = 256 * 2 ^ (32 - k - 8) := by
+        have : (256 : Nat) = 2 ^ 8 := by decide
+        rw [this, ← Nat.pow_add]; congr 1; omega
+      rw [h2, Nat.mod_mul_right_div_self, h3, Nat.mod_mul_right_mod]
+  have b0 := (hmod 0).resolve_right (by omega)
+  have b8 := (hmod 8).resolve_right (by omega)
+  have b16 := (hmod 16).resolve_right (by omega)
+  have b24 := (hmod 24).resolve_right (by omega)
+  simp only [Nat.shiftRight_zero, BitVec.ushiftRight_zero] at b0
+  have hk := key (BitVec.ofNat 32 v)
+  have hv : (BitVec.ofNat 32 v).toNat = v % 2 ^ 32 := by simp
+  cases e with
+  | big =>
+    simp only [bytes32, assemble, List.foldl_cons, List.foldl_nil, UInt8.toNat_ofNat', Nat.zero_mul, Nat.zero_add]
+    rw [b0, b8, b16, b24, hk, hv]
+  | little =>
+    simp only [bytes32, assemble, List.foldr_cons, List.foldr_nil, UInt8.toNat_ofNat', Nat.mul_zero, Nat.add_zero]
+    rw [b0, b8, b16, b24, ← hv, ← hk]
+    omega
+
+/-! ## histories -/
+
+/-- the mutating operations of a history -/
+inductive Op where
+  | setMemory (a : Nat) (d : List UInt8) (p : Perm)
+  | set32 (a v : Nat)
+
+/-- a region must be a region of the 64-bit address space not containing its last byte (see the header) -/
+def Op.Valid : Op → Prop
+  | .setMemory a d _ => a + d.length < U64
+  | .set32 _ _ => True
+
+/-- one operation on the model (a failing operation — `set32` returning `Err` or panicking before it mutates —
+    leaves the memory as it was) and, alongside, on the specification: a region write overrides the range; a
+    32-bit store inside one section overrides four bytes, outside it changes nothing. -/
+def step (s : Memory × ByteMap) : Op → Memory × ByteMap
+  | .setMemory a d p =>
+    (match s.1.setMemory a d p with | .ok m' => m' | _ => s.1, override s.2 a d p)
+  | .set32 a v =>
+    (match s.1.set32 a v with | .ok m' => m' | _ => s.1,
+     if within32 s.1.sections a then overrideBytes s.2 a (bytes32 s.1.endian v) else s.2)
+
+def run (e : Endian) (ops : List Op) : Memory × ByteMap := ops.foldl step (Memory.new e, ByteMap.empty)
+
+/-- `set32` answers `Ok` only inside one section -/
+theorem set32_ok_within (m : Memory) (hinv : Inv m.sections) (a v : Nat) (m' : Memory) (h : m.set32 a v = .ok m') :
+    within32 m.sections a = true := by
+  simp only [within32, List.any_eq_true, Bool.and_eq_true, decide_eq_true_eq]
+  rcases abs_cases hinv.pairwise a with ⟨e, he, h1, h2, _⟩ | ⟨hnone, _⟩
+  · refine ⟨e, he, h1, ?_⟩
+    unfold set32 at h
+    rw [sectionAddress_covered hinv he h1 h2] at h
+    simp only [find_of_mem hinv.pairwise he] at h
+    split at h
+    · cases h
+    · omega
+  · unfold set32 at h
+    rw [sectionAddress_unmapped hinv hnone] at h
+    cases h
+
+theorem step_inv (e : Endian) (s : Memory × ByteMap) (op : Op) (hv : op.Valid)
+    (h : Inv s.1.sections ∧ abs s.1.sections = s.2 ∧ s.1.endian = e) :
+    Inv (step s op).1.sections ∧ abs (step s op).1.sections = (step s op).2 ∧ (step s op).1.endian = e := by
+  obtain ⟨hinv, habs, hend⟩ := h
+  cases op with
+  | setMemory a d p =>
+    obtain ⟨m', hok, he, hi, ha⟩ := set_memory_spec s.1 a d p hinv hv
+    simp only [step, hok]
+    exact ⟨hi, by rw [ha, habs], by rw [he, hend]⟩
+  | set32 a v =>
+    by_cases hw : within32 s.1.sections a = true
+    · obtain ⟨m', hok, he, hi, ha⟩ := set32_spec s.1 hinv a v hw
+      simp only [step, hok, hw, ↓reduceIte]
+      exact ⟨hi, by rw [ha, habs], by rw [he, hend]⟩
+    · have hfail : ∀ m', s.1.set32 a v ≠ .ok m' := fun m' hok => hw (set32_ok_within s.1 hinv a v m' hok)
+      simp only [step, hw, Bool.false_eq_true, ↓reduceIte]
+      cases hr : s.1.set32 a v with
+      | ok m' => exact absurd hr (hfail m')
+      | err _ => exact ⟨hinv, habs, hend⟩
+      | panic => exact ⟨hinv, habs, hend⟩
+
+/-- **history.** After every finite sequence of `set_memory` / `set32` on a fresh memory (regions arbitrary:
+    overlapping, nested, adjacent, identical, empty), the stored sections are sorted, pairwise disjoint and
+    non-empty, and the byte map of the memory is the specification's: the fold of `override` (most recent
+    region wins) and of the 4-byte overrides of the 32-bit stores that lay within one section. -/
+theorem history (e : Endian) (ops : List Op) (hv : ∀ op ∈ ops, op.Valid) :
+    Inv (run e ops).1.sections ∧ abs (run e ops).1.sections = (run e ops).2 ∧ (run e ops).1.endian = e := by
+  unfold run
+  have gen : ∀ (ops : List Op) (s : Memory × ByteMap), (∀ op ∈ ops, op.Valid) →
+      (Inv s.1.sections ∧ abs s.1.sections = s.2 ∧ s.1.endian = e) →
+      Inv (ops.foldl step s).1.sections ∧ abs (ops.foldl step s).1.sections = (ops.foldl step s).2 ∧
+        (ops.foldl step s).1.endian = e := by
+    intro ops
+    induction ops with
+    | nil => intro s _ h; exact h
+    | cons op t ih =>
+      intro s hv h
+      rw [List.foldl_cons]
+      exact ih (step s op) (fun o ho => hv o (by simp [ho])) (step_inv e s op (hv op (by simp)) h)
+  apply gen ops _ hv
+  refine ⟨inv_nil, ?_, rfl⟩
   funext x; simp [abs, Memory.new, ByteMap.empty]
+
+/-- **history, as seen by the reads**: after any history every address reads the byte and the permissions of
+    the specification's byte map, multi-byte reads assemble it, nothing panics. -/
+theorem history_reads (e : Endian) (ops : List Op) (hv : ∀ op ∈ ops, op.Valid) (x : Nat) :
+    let m := (run e ops).1
+    let f := (run e ops).2
+    m.get8 x = .ok ((f x).map Prod.fst) ∧ m.permissions x = .ok ((f x).map Prod.snd) ∧
+      ∀ bits, x < U64 → bits < U64 → m.get x bits = .ok (specGet e f x bits) := by
+  obtain ⟨hinv, habs, hend⟩ := history e ops hv
+  refine ⟨?_, ?_, ?_⟩
+  · rw [← habs]; exact get8_spec _ hinv x
+  · rw [← habs]; exact permissions_spec _ hinv x
+  · intro bits hx hb
+    have := get_spec _ hinv x bits hx hb
+    rw [hend, habs] at this
+    exact this
+
+/-- the region writes of a history, most recent last -/
+abbrev Region := Nat × List UInt8 × Perm
+
+/-- the byte and permissions of the most recent region covering `x`; `none` if no region ever covered it -/
+def mostRecent (rs : List Region) (x : Nat) : Option (UInt8 × Perm) :=
+  match rs.reverse.find? (fun r => decide (r.1 ≤ x) && decide (x < r.1 + r.2.1.length)) with
+  | some r => (r.2.1[x - r.1]?).map (fun b => (b, r.2.2))
+  | none => none
+
+/-- **the fold of `override` is "most recent covering region, else unmapped"** -/
+theorem override_fold_mostRecent (rs : List Region) :
+    rs.foldl (fun f r => override f r.1 r.2.1 r.2.2) ByteMap.empty = mostRecent rs := by
+  have gen : ∀ (rs : List Region) (f0 : ByteMap) (x : Nat),
+      rs.foldl (fun f r => override f r.1 r.2.1 r.2.2) f0 x =
+        match rs.reverse.find? (fun r => decide (r.1 ≤ x) && decide (x < r.1 + r.2.1.length)) with
+        | some r => (r.2.1[x - r.1]?).map (fun b => (b, r.2.2))
+        | none => f0 x := by
+    intro rs
+    induction rs with
+    | nil => intro f0 x; simp
+    | cons r t ih =>
+      intro f0 x
+      rw [List.foldl_cons, ih, List.reverse_cons, List.find?_append]
+      cases List.find? (fun r => decide (r.1 ≤ x) && decide (x < r.1 + r.2.1.length)) t.reverse with
+      | some r' => simp
+      | none =>
+        simp only [Option.none_or, List.find?_cons, List.find?_nil, override]
+        by_cases hc : r.1 ≤ x ∧ x < r.1 + r.2.1.length
+        · simp [hc]
+        · have : (decide (r.1 ≤ x) && decide (x < r.1 + r.2.1.length)) = false := by
+            simp only [Bool.and_eq_false_iff, decide_eq_false_iff_not]; omega
+          simp [hc, this]
+  funext x
+  rw [gen rs ByteMap.empty x]
+  unfold mostRecent
+  cases List.find? (fun r => decide (r.1 ≤ x) && decide (x < r.1 + r.2.1.length)) rs.reverse <;> rfl
+
+/-- **history of region writes**: after any sequence of `set_memory`, every address reads the byte and
+    permissions of the most recent region covering it, and addresses never covered are unmapped. -/
+theorem history_regions (e : Endian) (rs : List Region) (hv : ∀ r ∈ rs, r.1 + r.2.1.length < U64) (x : Nat) :
+    let m := (run e (rs.map (fun r => Op.setMemory r.1 r.2.1 r.2.2))).1
+    Inv m.sections ∧ m.get8 x = .ok ((mostRecent rs x).map Prod.fst) ∧
+      m.permissions x = .ok ((mostRecent rs x).map Prod.snd) := by
+  have hv' : ∀ op ∈ rs.map (fun r => Op.setMemory r.1 r.2.1 r.2.2), op.Valid := by
+    intro op hop
+    rw [List.mem_map] at hop
+    obtain ⟨r, hr, rfl⟩ := hop
+    exact hv r hr
+  have hspec : (run e (rs.map (fun r => Op.setMemory r.1 r.2.1 r.2.2))).2 = mostRecent rs := by
+    rw [← override_fold_mostRecent]
+    unfold run
+    generalize ByteMap.empty = f0
+    generalize Memory.new e = m0
+    induction rs generalizing f0 m0 with
+    | nil => rfl
+    | cons r t ih =>
+      simp only [List.map_cons, List.foldl_cons]
+      rw [ih (fun r hr => hv r (by simp [hr])) (fun op hop => hv' op (by simp [List.mem_map] at hop ⊢; right; exact hop))]
+      rfl
+  have hr := history_reads e _ hv' x
+  obtain ⟨hinv, _, _⟩ := history e _ hv'
+  simp only at hr
+  rw [hspec] at hr
+  exact ⟨hinv, hr.1, hr.2.1⟩
+
+/-! ## non-vacuity -/
+
+/-- a concrete overlapping history: the second region splits the first; the invariant and the map are as stated -/
+example :
+    ((run .big [.setMemory 16 [0xaa, 0xbb, 0xcc, 0xdd] 5, .setMemory 17 [0x11] 3]).1.sections
+      = [(16, ⟨[0xaa], 5⟩), (17, ⟨[0x11], 3⟩), (18, ⟨[0xcc, 0xdd], 5⟩)]) := by decide
+
+example : (∀ op ∈ [Op.setMemory 16 [0xaa, 0xbb, 0xcc, 0xdd] 5, Op.setMemory 17 [0x11] 3, Op.set32 18 7], op.Valid) := by
+  intro op hop
+  simp only [List.mem_cons, List.not_mem_nil, or_false] at hop
+  rcases hop with rfl | rfl | rfl <;> simp only [Op.Valid] <;> decide
+
+/-- the hypotheses of the read theorems are met by a non-trivial memory, and a read across two sections
+    assembles: `get(16, 32)` on the memory above is `0xaa11ccdd` -/
+example : (run .big [.setMemory 16 [0xaa, 0xbb, 0xcc, 0xdd] 5, .setMemory 17 [0x11] 3]).1.get 16 32
+    = .ok (some ⟨32, 0xaa11ccdd⟩) := by decide
+
+/-- and a read running past the end is `none`, not a panic -/
+example : (run .big [.setMemory 16 [0xaa, 0xbb, 0xcc, 0xdd] 5]).1.get 18 32 = .ok none := by decide
+
+example : within32 (run .little [.setMemory 16 [1, 2, 3, 4, 5, 6] 7]).1.sections 17 = true := by decide
 
 end Falcon.C16
